@@ -23,14 +23,14 @@ import tempfile
 from harness.common import MachineryError
 
 ABSENT, EMPTY = 256, 257
-_FIELD = {"pk": 3, "salt": 2, "proof": 4, "enc": 5}
-_STEP_NO = {"PS_M2": 2, "PS_M4": 4, "PS_M6": 6, "PV_M2": 2, "PV_M4": 4}
+_FIELD = {"pk": 3, "salt": 2, "proof": 4, "enc": 5, "method": 0, "sid": 14, "tag": 5}
+_STEP_NO = {"PS_M2": 2, "PS_M4": 4, "PS_M6": 6, "PV_M2": 2, "PV_M2R": 2, "PV_M4": 4}
 
 
 def concretise(cell, honest_items) -> bytes:
     """TLV bytes of the symbolic reply: State?, Error?, the step's fields (honest values), RetryDelay?"""
     from harness.refacc import tlv as T
-    hd = dict(honest_items)
+    hd = honest_items if isinstance(honest_items, dict) else dict(honest_items)
     out = []
     for name in cell["wire"]:
         if name == "state":
@@ -40,7 +40,7 @@ def concretise(cell, honest_items) -> bytes:
         elif name == "retry":
             out.append((T.RETRY_DELAY, b"\x05"))
         else:
-            v = hd.get(_FIELD[name])
+            v = hd.get(name, hd.get(_FIELD[name]))
             if v is None:                      # optional blob the honest accessory does not send (MFi at PS-M4)
                 v = bytes(range(48))
             out.append((_FIELD[name], v))
@@ -80,6 +80,36 @@ def run_cell(cell):
         acc = D.ScriptedAccessory(hook=hook)
         pin = None if step == "PS_M2" else D.PIN
         o = {"gen": D.gen_pair_setup, "ip": D.ip_pair_setup, "coap": D.coap_pair_setup, "ble": D.ble_pair_setup}[tr](acc, pin)
+    elif step == "PV_M2R":
+        # a previous full exchange on the same transport gives the controller its resumable session (session id +
+        # derive, produced by the real code); the reference accessory keeps that session's shared secret
+        from harness.refacc import attacker as K
+        from harness.refacc import crypto as C
+        from harness.refacc import tlv as T
+        ident, pd = _pairing_data()
+        first = D.ScriptedAccessory(ident=ident)
+        o1 = D.gen_pair_verify(first, pd) if tr == "gen" else D.ble_pair_verify(first, pd)
+        if not o1.ok:
+            return "machinery", f"the full pair-verify before the resume failed ({o1!r})"
+        sid, derive = o1.value if tr == "gen" else (o1.extra["session_id"], o1.extra["derive"])
+        s0 = first.pv.shared
+
+        def rhook(acc, st, items, honest):
+            if st == "PV_M2" and not fired:
+                fired.append(1)
+                d = dict(items)
+                if K.resume_check_m1(s0, K.resume_session_id(s0), items) is not None:
+                    sent["not_a_resume_request"] = True
+                ios_pk = bytes(d[T.PUBLIC_KEY])
+                new_sid = bytes(range(8, 16))
+                tag = C.seal(K.resume_response_key(s0, ios_pk, new_sid), C.label_nonce(b"PR-Msg02"), b"")
+                sent["reply"] = concretise(cell, {"method": K.METHOD_RESUME, "sid": new_sid, "tag": tag})
+                return sent["reply"]
+            return None
+        acc = D.ScriptedAccessory(ident=ident, hook=rhook)
+        o = D.gen_pair_verify(acc, pd, sid, derive) if tr == "gen" else D.ble_pair_verify(acc, pd, resume=(sid, derive))
+        if sent.get("not_a_resume_request"):
+            return "machinery", "the controller did not send a well-formed resume request although it holds a session"
     elif step.startswith("PV_"):
         ident, pd = _pairing_data()
         acc = D.ScriptedAccessory(ident=ident, hook=hook)
@@ -237,19 +267,22 @@ def _validate(ctx, tmp, name, recs, label, already_reported):
 
 
 def _needed(step):
-    return {"PS_M2": {"pk", "salt"}, "PS_M4": {"proof"}, "PS_M6": {"enc"}, "PV_M2": {"pk", "enc"}}.get(step, set())
+    return {"PS_M2": {"pk", "salt"}, "PS_M4": {"proof"}, "PS_M6": {"enc"}, "PV_M2": {"pk", "enc"},
+            "PV_M2R": {"method", "sid", "tag"}}.get(step, set())
 
 
 def _random_records(ctx, n):
     """Thorough tier: State / Error byte values outside the enumerated ones, all transports."""
     rng = ctx.rng
-    steps = ["PS_M2", "PS_M4", "PS_M6", "PV_M2", "PV_M4", "IP_Add", "IP_Remove", "BLE_Add", "BLE_Remove"]
-    fields = {"PS_M2": ["pk", "salt"], "PS_M4": ["proof", "enc"], "PS_M6": ["enc"], "PV_M2": ["pk", "enc"]}
-    order = ["pk", "salt", "proof", "enc"]
+    steps = ["PS_M2", "PS_M4", "PS_M6", "PV_M2", "PV_M2R", "PV_M4", "IP_Add", "IP_Remove", "BLE_Add", "BLE_Remove"]
+    fields = {"PS_M2": ["pk", "salt"], "PS_M4": ["proof", "enc"], "PS_M6": ["enc"], "PV_M2": ["pk", "enc"],
+              "PV_M2R": ["method", "sid", "tag"]}
+    order = ["method", "sid", "pk", "salt", "proof", "enc", "tag"]
     cells = []
     for _ in range(n):
         s = rng.choice(steps)
-        tr = rng.choice(["gen", "ip", "coap", "ble"]) if s[0] == "P" else ("ip" if s.startswith("IP") else "ble")
+        tr = rng.choice(["gen", "ble"]) if s == "PV_M2R" else rng.choice(["gen", "ip", "coap", "ble"]) if s[0] == "P" \
+            else ("ip" if s.startswith("IP") else "ble")
         st = rng.choice([ABSENT, _STEP_NO.get(s, 2), rng.randrange(256), rng.randrange(256)])
         er = rng.choice([ABSENT, rng.randrange(256), rng.randrange(256), rng.randrange(256)])
         others = [f for f in order if f in fields.get(s, []) and rng.random() < 0.7]
